@@ -75,16 +75,14 @@ def alnum_value(r, depth=3, allow_empty=False):
 def csv_text(r):
     import csv
     rows = []
-    for _ in range(r.randint(1, 5)):
+    for _ in range(r.randint(0, 5)):
         row = []
-        for _ in range(r.randint(1, 4)):
+        for _ in range(r.randint(0, 4)):
             k = r.random()
             if k < 0.5:
                 row.append(r.choice(ALNUM))
             else:
                 row.append("".join(r.choice(['"', ",", "\n", "\r\n", " ", "a", "b", "'", ";", "\t", "é", "x"]) for _ in range(r.randint(0, 5))))
-        if all(x == "" for x in row):
-            row[0] = "a"           # rows without content are identified with no row by the code's own equality: ambiguous
         rows.append(row)
     o = io.StringIO()
     csv.writer(o).writerows(rows)
@@ -115,12 +113,12 @@ def make_document(fmt, r, i):
     if fmt == "csv":
         return csv_text(r)
     if fmt == "yaml":
-        v = alnum_value(r)
+        v = alnum_value(r, allow_empty=True)
         return yaml.safe_dump(v, default_flow_style=bool(i % 3 == 0)).encode()
     if fmt == "plist":
-        v = alnum_value(r)
+        v = alnum_value(r, allow_empty=True)
         while not isinstance(v, (dict, list)):
-            v = alnum_value(r)
+            v = alnum_value(r, allow_empty=True)
         return plistlib.dumps(v)
     return xml_text(r)
 
@@ -237,7 +235,7 @@ def run():
                 "same (process-wide) formatter -, reloaded by the same loader; distinct by (format, text)" % n)
     chk.assumptions = ["equal document = equal abstract value (wrapper classes without __eq__ and string quoting style are not "
                        "data); XML text modulo surrounding whitespace",
-                       "YAML empty containers and CSV rows without content are outside the decided domain"]
+                       "the abstract value of a CSV table is its list of rows (blank lines are rows without cells)"]
     return chk.finish()
 
 
